@@ -169,7 +169,8 @@ def run():
             ('ToVec', 'NItems = 1\n Fails = FALSE\n WakerFirst = TRUE', 'PROPERTY EventuallyReady', 'EventuallyReady'),
             ('TimedOps', 'D = 100\n Gaps = {40, 110}\n MaxEvents = 2\n CancelOnEnd = FALSE\n ArmAfterEnd = FALSE', 'INVARIANTS ExitWithinOnePeriod', 'ExitWithinOnePeriod'),
             ('TimedOps', 'D = 100\n Gaps = {40, 110}\n MaxEvents = 2\n CancelOnEnd = TRUE\n ArmAfterEnd = TRUE', 'INVARIANTS ExitWithinOnePeriod', 'ExitWithinOnePeriod'),
-            ('ObserveOn', 'NItems = 2\n Ending = "e"\n WithUnsub = FALSE\n ErrorDirect = TRUE', 'INVARIANTS OrderOK OnWorker', 'O'),
+            ('ObserveOn', 'NItems = 2\n Ending = "e"\n WithUnsub = FALSE\n ErrorDirect = TRUE\n Feedback = FALSE\n InlineFromWorker = FALSE', 'INVARIANTS OrderOK OnWorker', 'O'),
+            ('ObserveOn', 'NItems = 2\n Ending = "c"\n WithUnsub = FALSE\n ErrorDirect = FALSE\n Feedback = TRUE\n InlineFromWorker = TRUE', 'INVARIANTS NeverNested', 'NeverNested'),
             ('SubscribeOn', 'NItems = 2\n Completes = FALSE\n WithUnsub = TRUE\n HookInJob = TRUE', 'PROPERTY WorkerExits', 'WorkerExits'),
             ('Debounce', 'D = 100\n Gaps = {40, 260}\n MaxEvents = 3\n ReadNotTake = TRUE', 'INVARIANTS InOrderNoneTwice', 'InOrderNoneTwice'),
             ('SampleConc', 'NItems = 2\n NTicks = 2\n Completes = TRUE\n ReadNotTake = TRUE\n TwoStepTake = FALSE', 'INVARIANTS InOrderNoneTwice', 'InOrderNoneTwice'),
